@@ -1,21 +1,21 @@
 SPECIFICATION Spec
 CONSTANTS
   Server = {"a", "b", "c"}
-  InitCfg = "abc"
-  CfgTab <- Tab3
+  InitCfg = "ab"
+  CfgTab <- TabM
   MaxTerm = 3
-  MaxLog = 2
+  MaxLog = 3
   MaxClient = 0
   MaxCrash = 0
   MaxMsgs = 3
   MaxSnap = 0
-  MaxMember = 0
-  MaxTimeout = 2
+  MaxMember = 1
+  MaxTimeout = 1
   MaxDrop = 0
   MaxMisc = 0
   MaxAppend = 2
   Trailing = 1
-  Features = {"prevote"}
+  Features = {"member"}
 VIEW view
 INVARIANTS ElectionSafety OneVotePerTerm TermDurable CommittedFunctional CommittedStable LeaderComplete LogMatching TermsMonotoneM CommitBounded CommitJustified FsmOnlyCommitted FsmInOrder FsmAgree OneUncommittedCfg NoHoleM ReportedCovered
 CHECK_DEADLOCK FALSE
